@@ -1,7 +1,7 @@
 """C06 — capacity discipline and size bounds: full capacity sweeps on exact-size heap buffers."""
 RULE = ('(1) 3 entry points (compress2, ZSTD_compress, one compressStream2(e_end) with stable output) x parameter vectors (9 strategies, <= D deviations, shared with C01) x input shapes '
         '(<= 450 bytes, same budget) x EVERY destination capacity 0..compressBound+8 (quick tier: every capacity within 48 of either end, every 4th in between): error or size <= capacity, only dstSize_tooSmall below the bound, success at and above the bound, every '
-        'success round-trips; (2) 4 adversarial contents x 24 sizes around block edges x vectors with maxBlockSize / targetCBlockSize deviations at capacity == compressBound; '
+        'success round-trips; (1b) inputs over small low-valued alphabets (14 alphabet sizes x 8 lengths x 4 levels x skew x 2 entry points) x every capacity; (2) 4 adversarial contents x 24 sizes around block edges x vectors with maxBlockSize / targetCBlockSize deviations at capacity == compressBound; '
         '(3) every catalogue record x every capacity 0..content+8 for decoding, findFrameCompressedSize / decompressBound / getFrameContentSize / findDecompressedSize against the reference '
         'layout, in-place decoding with ZSTD_decompressionMargin; buffers are exact-size ASan allocations; distinct = distinct (first succeeding capacity, input) / frames; '
         'non-trivial = sweep with both refusals and successes')
@@ -12,6 +12,7 @@ def run(vc, tier):
     c = vc.Check('C06', tier, 'exploration', RULE)
     q = tier == 'quick'
     c.run_vx_unit('c06-comp', SRC, 'asan', ['--mode', 'comp', '--D', 1 if q else 2, '--capstep', 4 if q else 1, '--segdev', 2 if q else 4], share=0.5)
+    c.run_vx_unit('c06-alpha', SRC, 'asan', ['--mode', 'alpha', '--D', 0], share=0.4)
     c.run_vx_unit('c06-bound', SRC, 'asan', ['--mode', 'bound', '--D', 1 if q else 2], share=0.5)
     c.run_vx_unit('c06-decomp', SRC, 'asan', ['--mode', 'decomp', '--cat', vc.catalogue('quick'), '--stride', 2 if q else 1, '--D', 0], share=0.9)
     c.extra['capacities_tried'] = sum(r.stats.get('capacities_tried', 0) for _, r, _ in c.units)
